@@ -357,3 +357,215 @@ pub fn run(spec: &crate::Spec) -> Report {
     rep.extra("preemption_bound_completed", if b.preemptions == usize::MAX { 99 } else { b.preemptions });
     rep
 }
+
+// ---------------------------------------------------------------------------------------------
+// C06 through a queuing wrapper: StatsdClient -> QueuingMetricSink -> logging adapter ->
+// BufferedSpyMetricSink. `client.flush()` runs on the caller's thread while the worker may be
+// inside the buffered sink.
+
+#[derive(Clone, Debug)]
+enum QEv {
+    InnerRet { metric: String, ok: bool, seq: usize },
+    Flush { call: usize, ret: usize, ok: bool, seen: usize },
+    Final { seen: usize },
+    Refused(String),
+}
+
+#[derive(Clone)]
+pub struct QFlushScn {
+    pub cap: usize,
+    pub qcap: Option<usize>,
+    pub prog: String,
+    pub text: String,
+}
+
+pub fn qflush_scenario(spec: &crate::Spec) -> QFlushScn {
+    QFlushScn {
+        cap: spec.usize("cap", 16),
+        qcap: spec.opt_usize("qcap"),
+        prog: spec.str("prog", "EEF"),
+        text: spec.raw.clone(),
+    }
+}
+
+struct QShared {
+    log: Mutex<Vec<QEv>>,
+    seq: AtomicUsize,
+    wire: Mutex<Vec<Vec<u8>>>,
+    accepted: AtomicUsize,
+    inner_done: AtomicUsize,
+}
+
+struct Logging {
+    inner: BufferedSpyMetricSink,
+    sh: Arc<QShared>,
+}
+
+impl MetricSink for Logging {
+    fn emit(&self, m: &str) -> std::io::Result<usize> {
+        let r = self.inner.emit(m);
+        let seq = self.sh.seq.fetch_add(1, Ordering::SeqCst);
+        self.sh.log.lock().unwrap().push(QEv::InnerRet {
+            metric: m.to_string(),
+            ok: r.is_ok(),
+            seq,
+        });
+        self.sh.inner_done.fetch_add(1, Ordering::SeqCst);
+        r
+    }
+    fn flush(&self) -> std::io::Result<()> {
+        self.inner.flush()
+    }
+}
+
+impl Scenario for QFlushScn {
+    fn name(&self) -> String {
+        self.text.clone()
+    }
+
+    fn max_steps(&self) -> usize {
+        20000
+    }
+
+    fn make(&self) -> (Box<dyn FnOnce() + Send + 'static>, Box<dyn FnOnce(&EndState) -> Verdict + Send + 'static>) {
+        let sh = Arc::new(QShared {
+            log: Mutex::new(vec![]),
+            seq: AtomicUsize::new(0),
+            wire: Mutex::new(vec![]),
+            accepted: AtomicUsize::new(0),
+            inner_done: AtomicUsize::new(0),
+        });
+        let scn = self.clone();
+        let sh2 = sh.clone();
+        let body = Box::new(move || {
+            let sh = sh2;
+            let (rx, spy) = BufferedSpyMetricSink::with_capacity(None, Some(scn.cap));
+            let logging = Logging { inner: spy, sh: sh.clone() };
+            let q = match scn.qcap {
+                Some(c) => cadence::QueuingMetricSink::with_capacity(logging, c),
+                None => cadence::QueuingMetricSink::from(logging),
+            };
+            let client = StatsdClient::from_sink("", q);
+            let mut k = 0;
+            for op in scn.prog.bytes() {
+                match op {
+                    b'E' => {
+                        let key = format!("{}", (b'a' + k as u8) as char);
+                        k += 1;
+                        match client.count(&key, 1) {
+                            Ok(_) => {
+                                sh.accepted.fetch_add(1, Ordering::SeqCst);
+                            }
+                            Err(e) => sh.log.lock().unwrap().push(QEv::Refused(e.to_string())),
+                        }
+                    }
+                    b'W' => {
+                        let s = sh.clone();
+                        rt::wait_until("inner-emits-done", move || s.inner_done.load(Ordering::SeqCst) >= s.accepted.load(Ordering::SeqCst));
+                    }
+                    b'F' => {
+                        let call = sh.seq.fetch_add(1, Ordering::SeqCst);
+                        let r = client.flush();
+                        sh.wire.lock().unwrap().extend(rx.try_iter());
+                        let seen = sh.wire.lock().unwrap().len();
+                        let ret = sh.seq.fetch_add(1, Ordering::SeqCst);
+                        sh.log.lock().unwrap().push(QEv::Flush {
+                            call,
+                            ret,
+                            ok: r.is_ok(),
+                            seen,
+                        });
+                    }
+                    _ => {}
+                }
+            }
+            drop(client);
+            rt::wait_quiescent();
+            sh.wire.lock().unwrap().extend(rx.try_iter());
+            let seen = sh.wire.lock().unwrap().len();
+            sh.log.lock().unwrap().push(QEv::Final { seen });
+        });
+        let judge = Box::new(move |end: &EndState| {
+            let log = sh.log.lock().unwrap().clone();
+            let wire = sh.wire.lock().unwrap().clone();
+            let mut out: Vec<Breach> = vec![];
+            let mut flags: Vec<&'static str> = vec![];
+            for (t, p) in &end.panics {
+                br(&mut out, &["C06", "C20"], "panic", format!("thread {} panicked: {}", t, p));
+            }
+            let lines_upto = |n: usize| -> Vec<String> {
+                wire.iter()
+                    .take(n)
+                    .flat_map(|d| String::from_utf8_lossy(d).trim_end_matches('\n').split('\n').map(|s| s.to_string()).collect::<Vec<_>>())
+                    .collect()
+            };
+            let inner: Vec<(String, usize)> = log
+                .iter()
+                .filter_map(|e| match e {
+                    QEv::InnerRet { metric, ok: true, seq } => Some((metric.clone(), *seq)),
+                    _ => None,
+                })
+                .collect();
+            for e in &log {
+                match e {
+                    QEv::Flush { call, ok: true, seen, .. } => {
+                        let have = lines_upto(*seen);
+                        for (m, s) in &inner {
+                            if s < call && !have.contains(m) {
+                                br(&mut out, &["C06"], "queue-flush-left-metric-behind", format!("client.flush() through the queuing sink returned Ok, but {:?}, which the buffered sink had accepted before the flush began, is not on the wire ({:?})", m, have));
+                            }
+                        }
+                        if inner.iter().any(|(_, s)| s < call) {
+                            flags.push("flush-after-inner-emit");
+                        }
+                    }
+                    QEv::Flush { ok: false, .. } => br(&mut out, &["C06"], "queue-flush-failed", "client.flush() through the queuing sink failed without any socket failure".into()),
+                    QEv::Final { seen } => {
+                        let have = lines_upto(*seen);
+                        for (m, _) in &inner {
+                            let n = have.iter().filter(|x| *x == m).count();
+                            if n != 1 {
+                                br(&mut out, &["C06", "C09"], "queue-drop-conservation", format!("after the client was dropped and everything came to rest, {:?} appears {} times on the wire ({:?})", m, n, have));
+                            }
+                        }
+                        flags.push("final-wire-checked");
+                    }
+                    _ => {}
+                }
+            }
+            if !log.iter().any(|e| matches!(e, QEv::Final { .. })) {
+                br(&mut out, &["C06", "C09"], "stuck", format!("the program did not come to rest: {:?}", end.unfinished()));
+            }
+            let sig: Vec<String> = log
+                .iter()
+                .map(|e| match e {
+                    QEv::InnerRet { metric, ok, .. } => format!("I{}{}", metric, ok),
+                    QEv::Flush { ok, seen, .. } => format!("F{}{}", ok, seen),
+                    QEv::Final { seen } => format!("Z{}", seen),
+                    QEv::Refused(_) => "R".into(),
+                })
+                .collect();
+            out.dedup_by(|a, b| a.sig == b.sig);
+            Verdict {
+                breaches: out,
+                outcome: hash_of(&(sig, wire.clone())),
+                flags,
+                summary: format!("wire={:?}", wire.iter().map(|d| String::from_utf8_lossy(d).to_string()).collect::<Vec<_>>()),
+            }
+        });
+        (body, judge)
+    }
+}
+
+pub fn run_qflush(spec: &crate::Spec) -> Report {
+    let mut rep = Report::new(&spec.raw);
+    let scn = qflush_scenario(spec);
+    let b = Bounds {
+        preemptions: spec.opt_usize("P").unwrap_or(usize::MAX),
+        deviations: 0,
+        max_execs: spec.usize("max", 1_000_000) as u64,
+    };
+    explore::check(&mut rep, &scn, b, &spec.raw);
+    rep.extra("preemption_bound_completed", if b.preemptions == usize::MAX { 99 } else { b.preemptions });
+    rep
+}
